@@ -19,8 +19,9 @@ QVerdict ==
     IF OpenQuery(e) THEN "open"
     ELSE IF e.err THEN "error-instead-of-rows"
     ELSE IF RowsOK(e.rows, e) THEN "ok"
-    ELSE IF \E dv \in Deviations : RowsOKDev(e.rows, e, dv)
-         THEN CHOOSE dv \in Deviations : RowsOKDev(e.rows, e, dv)
+    ELSE IF \E dv \in Deviations : RowsOKDev(e.rows, e, {dv})
+         THEN CHOOSE dv \in Deviations : RowsOKDev(e.rows, e, {dv})
+    ELSE IF RowsOKDev(e.rows, e, Deviations) THEN "oid-alias-unchecked+rows-without-bindings-dropped"
     ELSE LET S == Solutions(e)
              exp == {ProjRow(x.a, e.proj) : x \in S}
          IN  IF ~(Range(e.rows) \subseteq exp) THEN "row-not-a-solution"
